@@ -22,7 +22,7 @@ var keyProps = map[string][]string{
 	"replica-":                         {"C01"},
 	"walk-wrong-tip":                   {"C01"},
 	"state-tip-unknown":                {"C01"},
-	"reopen-failed":                    {"C01", "C05"},
+	"reopen-failed":                    {"C01", "C05", "C12"},
 	"panic":                            {"C01", "C02", "C03", "C04", "C05", "C06", "C12", "C17", "C18"},
 	"conservation":                     {"C02", "C12"},
 	"admitted-":                        {"C03", "C12"},
